@@ -1,6 +1,7 @@
 """C12 Encoder selection always succeeds and disk caches are transparent - structural clauses."""
 import ast
 
+from ..rules.match import FnText
 from ..model import AnalysisError, norm, walk_no_nested
 from ..cfg import build_cfg
 from ..flow import Slice
@@ -116,8 +117,8 @@ def fresh_imputer_per_encoder(ctx, rule='A24'):
     # same discipline where an encoder is re-bound to another imputer
     for key in (f'{ENC}:EagerEncoder.get_for_imputer', f'{LAZY}:LazyEncoder.get_for_imputer'):
         f = ctx.fn(key)
-        t = ' '.join(norm(x) for x in f.body)
-        ok = 'copy.deepcopy(self)' in t and 'set_imputer(imputer)' in t
+        t = FnText(ctx, f)
+        ok = 'copy.deepcopy(self)' in t and 'encoder.set_imputer(imputer)' in t
         ctx.ob(rule, fkey(f, rule, 'rebinding-copies-encoder'), ok, f.where,
                'binding an encoder to another imputer works on a deep copy of the encoder (the original keeps its '
                'own imputer)', '')
@@ -189,7 +190,7 @@ def cache_keys(ctx, rule='A8'):
     nd = ctx.prog.cls(f'{MATRIX}:Node')
     attrs = sorted(nd.instance_attrs)
     rp = nd.methods.get('__repr__')
-    t = ' '.join(norm(s) for s in rp.body) if rp else ''
+    t = FnText(ctx, rp) if rp else ''
     for a in attrs:
         ctx.ob(rule, fkey(rp, rule, f'node-repr-covers:{a}'), f'self.{a}' in t, rp.where,
                f'the connector description embedded in the key covers attribute `{a}`', '')
@@ -197,12 +198,12 @@ def cache_keys(ctx, rule='A8'):
     ne = ctx.prog.cls(f'{MATRIX}:NodeExistence')
     pub = sorted(a for a in ne.instance_attrs if not a.startswith('_'))
     hs = ne.methods.get('__hash__')
-    t = ' '.join(norm(s) for s in hs.body) if hs else ''
+    t = FnText(ctx, hs) if hs else ''
     for a in pub:
         ctx.ob(rule, fkey(hs, rule, f'existence-hash-covers:{a}'), f'self.{a}' in t, hs.where,
                f'the existence-pattern hash (part of the key) covers attribute `{a}`', '')
     gs = ne.methods.get('__getstate__')
-    ok = gs is not None and "state['_hash'] = None" in ' '.join(norm(s) for s in gs.body)
+    ok = gs is not None and "state['_hash'] = None" in FnText(ctx, gs)
     ctx.ob(rule, fkey(gs, rule, 'hash-not-pickled') if gs else f'{ne.key}:getstate', ok, ne.where,
            'the memoised hash of an existence pattern is dropped when pickled (re-computed in the loading process)', '')
     # both caches use the settings key, in different folders
@@ -274,7 +275,7 @@ def pickle_caches(ctx, rule='A2'):
            'the relaxed limits used for limit_time=False are restored afterwards from the values saved before '
            '(later selections are unaffected)', f'overridden {sorted(overridden)}, restored {sorted(restored)}')
     g = ctx.fn(f'{MATRIX}:AggregateAssignmentMatrixGenerator.get_agg_matrix')
-    tg = ' '.join(norm(s) for s in g.body)
+    tg = FnText(ctx, g)
     ok = 'self._write_to_cache(self._get_cache_file(), agg_matrix)' in tg and 'return agg_matrix' in tg and \
         'self._load_agg_matrix_from_cache()' in tg
     ctx.ob(rule, fkey(g, rule, 'matrix-cache-roundtrip'), ok, g.where,
@@ -301,17 +302,17 @@ def shortcuts(ctx, rule='A5'):
     ctx.ob(rule, fkey(fn, rule, 'explicit-failure'), ok, fn.where,
            'the only way the selection itself gives up is one explicit error after every stage was tried', '')
     gb = ctx.fn(f'{SEL}._get_best')
-    t = ' '.join(norm(s) for s in gb.body)
+    t = FnText(ctx, gb)
     ok = 'if len(df_scores) == 0' in t
     ctx.ob(rule, fkey(gb, rule, 'no-candidates-no-crash'), ok, gb.where,
            'an empty score table (every candidate rejected in a stage) yields "no best" instead of an exception', '')
     ge = ctx.fn(f'{ENC}:EagerEncoder.get_design_variables')
-    t = ' '.join(norm(s) for s in ge.body)
+    t = FnText(ctx, ge)
     ok = 'if des_vectors.shape[0] == 0 or des_vectors.shape[1] == 0' in t
     ctx.ob(rule, fkey(ge, rule, 'eager-no-variables-for-trivial'), ok, ge.where,
            'an existence pattern with no matrices or no design variables declares no variable', '')
     nv = ctx.fn(f'{ENC}:EagerEncoder.normalize_design_vectors')
-    t = ' '.join(norm(s) for s in nv.body)
+    t = FnText(ctx, nv)
     ok = 'no_opts_mask = np.max(design_vectors, axis=0) == 0' in t and 'design_vectors[:, ~no_opts_mask]' in t
     ctx.ob(rule, fkey(nv, rule, 'eager-drops-one-option-columns'), ok, nv.where,
            'eager encoders drop columns with a single used value (exactly one matrix => zero variables)', '')
